@@ -218,7 +218,7 @@ func buildEngine(pc *propCfg, variants []string, scratch string) ([]build, error
 			// export file (renamed variable) is rebuilt without the exports
 			if pc.instrumented && strings.Contains(string(b), "zz_verif_export") {
 				_ = filepath.Walk(src, func(p string, info os.FileInfo, werr error) error {
-					if werr == nil && !info.IsDir() && info.Name() == "zz_verif_export.go" {
+					if werr == nil && !info.IsDir() && strings.HasPrefix(info.Name(), "zz_verif_export") {
 						_ = os.Remove(p)
 					}
 					return nil
